@@ -12,6 +12,7 @@ if [ -n "$HOOKS" ]; then
   git add $HOOKS && git commit -qm "verif hook for $P: $(echo $HOOKS | tr '\n' ' ')(build tag verif, add-only)"
   echo "$(git rev-parse --short HEAD) $(echo $HOOKS | tr '\n' ' ')" >> /verif/hooks_commits.txt
 fi
+git -C /repo checkout -- go.sum 2>/dev/null || true
 cd /verif
 python3 tools/merge_findings.py "$P"
 python3 tools/mkmanifest.py >/dev/null
